@@ -416,18 +416,20 @@ impl LightClientProtocol {
                 if let Some(to_number) = fork_number {
                     debug!("fork to number: {}", to_number);
                     let mut matched_blocks = self.peers.matched_blocks().write().expect("poisoned");
-                    let mut start_number_opt = None;
                     while let Some((start_number, _, _)) = self.storage.get_latest_matched_blocks()
                     {
                         if start_number > to_number {
                             debug!("remove matched blocks start from: {}", start_number);
                             self.storage.remove_matched_blocks(start_number);
                         } else {
-                            start_number_opt = Some(start_number);
                             break;
                         }
                     }
-                    let rollback_to = start_number_opt.unwrap_or(to_number) + 1;
+                    // Only the blocks after the fork point have to be removed. The matched blocks
+                    // which are kept were found for the scripts behind them only; if the scripts
+                    // ahead were rolled back to the start of such a record, the record would push
+                    // their block numbers forward again without filtering the blocks for them.
+                    let rollback_to = to_number + 1;
                     info!("rollback to block#{}", rollback_to);
                     self.storage.rollback_to_block(rollback_to);
                     matched_blocks.clear();
